@@ -391,7 +391,7 @@ theorem identOk_clean {s : Str} (h : identOk s = true) : Clean s := by
 theorem isDigit_path {c : Char} (h : isDigit c = true) : pathChar c = true := by
   simp only [isDigit, Bool.and_eq_true, decide_eq_true_eq] at h
   simp only [pathChar, Bool.and_eq_true, bne_iff_ne, ne_eq]
-  refine ⟨⟨⟨⟨⟨⟨⟨⟨⟨?_, ?_⟩, ?_⟩, ?_⟩, ?_⟩, ?_⟩, ?_⟩, ?_⟩, ?_⟩, ?_⟩ <;> (intro hc; subst hc; revert h; decide)
+  refine ⟨⟨⟨⟨⟨⟨⟨⟨⟨⟨?_, ?_⟩, ?_⟩, ?_⟩, ?_⟩, ?_⟩, ?_⟩, ?_⟩, ?_⟩, ?_⟩, ?_⟩ <;> (intro hc; subst hc; revert h; decide)
 
 theorem scopeStr_clean (pkg : Option Str) (sc : Scope) (h : scOk sc = true) : Clean (scopeStr pkg sc) := by
   unfold scopeStr
@@ -443,10 +443,10 @@ theorem argStr_inv : ∀ (t : GoType), wfArg t = true → ArgInv (argStr t) ∧ 
     refine ⟨?_, by simp [c], by simp⟩
     have : ArgInv ['[', ']'] := ⟨by decide, by decide, balanced_bracket (s := []) balanced_nil⟩
     exact argInv_append this i
-  | .named _ pkg name sc targs, h => by
+  | .named d pkg name sc targs, h => by
     simp only [wfArg, Bool.and_eq_true] at h
     obtain ⟨⟨⟨ht, hn⟩, hs⟩, hp⟩ := h
-    have hc : Clean (argStr (.named _ pkg name sc targs)) := by
+    have hc : Clean (argStr (.named d pkg name sc targs)) := by
       simp only [argStr, ht, if_true, List.append_nil]
       cases pkg with
       | none => exact clean_append (identOk_clean hn) (scopeStr_clean _ _ hs)
